@@ -51,6 +51,21 @@ class ClassRef:
         self.mod, self.node = mod, node
 
 
+class Model:
+    """base class of rule-provided stand-ins for foreign objects (an HDF5 file, a text file): attribute reads return the python attribute (callables are called with the frame as
+    first argument), subscripts go through np_getitem(frame, key) / np_setitem(frame, key, value), `in` through __contains__"""
+
+
+class Instance(types.SimpleNamespace):
+    """an object of a repository class: attributes set by the interpreted code live in the namespace, methods are resolved through the class and its repository bases"""
+    def __init__(self, mod, cls_name, **kw):
+        super().__init__(**kw)
+        object.__setattr__(self, "_npsym_class", (mod, cls_name))
+
+    def __repr__(self):
+        return f"<instance of {self._npsym_class[1]}>"
+
+
 class TorchMarker:
     """torch.<something> that carries no value of interest (dtypes, devices)"""
     def __init__(self, name):
@@ -220,6 +235,92 @@ class NpSym:
         qual = func if isinstance(func, str) else next((q for q, n in mod.functions.items() if n is node), node.name)
         return self._invoke(FuncRef(mod, node, qual), list(args), dict(kwargs or {}))
 
+    def class_attribute(self, mod, cls_name, name, selfobj, default=KeyError):
+        """attribute `name` looked up on the class `cls_name` and its repository bases for the instance selfobj: a method bound to selfobj (static / class methods bound
+        accordingly, properties evaluated), or a class-level assignment"""
+        seen = set()
+        todo = [(mod, cls_name)]
+        while todo:
+            m, c = todo.pop(0)
+            if (m.rel, c) in seen or c not in m.classes:
+                continue
+            seen.add((m.rel, c))
+            q = f"{c}.{name}"
+            if q in m.functions:
+                node = m.functions[q]
+                fr = FuncRef(m, node, q)
+                decos = {(d.id if isinstance(d, ast.Name) else d.attr if isinstance(d, ast.Attribute) else "") for d in node.decorator_list}
+                if "staticmethod" in decos:
+                    return fr
+                if "classmethod" in decos:
+                    cref = ClassRef(m, m.classes[c])
+                    return lambda frame, *a, **k: self._invoke(fr, [cref] + list(a), dict(k))
+                if "property" in decos:
+                    return self._invoke(fr, [selfobj], {})
+                return lambda frame, *a, **k: self._invoke(fr, [selfobj] + list(a), dict(k))
+            for st_ in m.classes[c].body:
+                if isinstance(st_, ast.Assign) and len(st_.targets) == 1 and isinstance(st_.targets[0], ast.Name) and st_.targets[0].id == name:
+                    return _Frame(self, m, {}).ev(st_.value)
+                if isinstance(st_, ast.AnnAssign) and isinstance(st_.target, ast.Name) and st_.target.id == name and st_.value is not None:
+                    return _Frame(self, m, {}).ev(st_.value)
+            for b in m.classes[c].bases:
+                bn = b.id if isinstance(b, ast.Name) else b.attr if isinstance(b, ast.Attribute) else None
+                if bn is None:
+                    continue
+                if bn in m.classes:
+                    todo.append((m, bn))
+                else:
+                    for st in m.tree.body:
+                        if isinstance(st, ast.ImportFrom) and any((al.asname or al.name) == bn for al in st.names):
+                            tm = self._resolve_import(m, st)
+                            if tm is not None:
+                                todo.append((tm, bn))
+        if default is KeyError:
+            raise AnalysisError(f"npsym: attribute `{name}` of an instance of {cls_name} is neither set nor defined by its repository classes")
+        return default
+
+    def construct(self, cref, args, kwargs):
+        """an Instance of a repository class: dataclass fields from the arguments / defaults, or the interpreted __init__"""
+        node = cref.node
+        decos = {(d.id if isinstance(d, ast.Name) else d.attr if isinstance(d, ast.Attribute) else getattr(getattr(d, "func", None), "id", "")) for d in node.decorator_list}
+        obj = Instance(cref.mod, node.name)
+        if "dataclass" in decos:
+            fields = [st for st in node.body if isinstance(st, ast.AnnAssign) and isinstance(st.target, ast.Name)]
+            if len(args) > len(fields):
+                raise AnalysisError(f"npsym: too many arguments for dataclass {node.name}")
+            kwargs = dict(kwargs)
+            fr = _Frame(self, cref.mod, {})
+            for i, f in enumerate(fields):
+                nm = f.target.id
+                if i < len(args):
+                    setattr(obj, nm, args[i])
+                elif nm in kwargs:
+                    setattr(obj, nm, kwargs.pop(nm))
+                elif f.value is not None:
+                    v = f.value
+                    if isinstance(v, ast.Call) and (norm(v.func) in ("field", "dataclasses.field")):
+                        kw = {k.arg: k.value for k in v.keywords}
+                        if "default_factory" in kw:
+                            setattr(obj, nm, fr.apply(fr.ev(kw["default_factory"]), []))
+                        elif "default" in kw:
+                            setattr(obj, nm, fr.ev(kw["default"]))
+                        else:
+                            raise AnalysisError(f"npsym: dataclass field {node.name}.{nm} without a default")
+                    else:
+                        setattr(obj, nm, fr.ev(v))
+                else:
+                    raise AnalysisError(f"npsym: missing dataclass field {node.name}.{nm}")
+            if kwargs:
+                raise AnalysisError(f"npsym: unexpected fields {sorted(kwargs)} for dataclass {node.name}")
+            return obj
+        init = self.class_attribute(cref.mod, node.name, "__init__", obj, default=None)
+        if init is None:
+            if args or kwargs:
+                raise AnalysisError(f"npsym: {node.name} takes no arguments")
+            return obj
+        init(None, *args, **kwargs)
+        return obj
+
     def super_method(self, mod, cls_name, method, selfobj):
         """the implementation of `method` that super() of class `cls_name` resolves to (single inheritance chains of repository classes), bound to selfobj"""
         seen = set()
@@ -284,11 +385,10 @@ class NpSym:
                 env[p.arg] = frame.ev(d)
             else:
                 raise AnalysisError(f"npsym: missing keyword `{p.arg}` of {fr.qual}")
-        if kwargs:
-            if a.kwarg is not None:
-                env[a.kwarg.arg] = kwargs
-            else:
-                raise AnalysisError(f"npsym: unexpected keywords {sorted(kwargs)} for {fr.qual}")
+        if a.kwarg is not None:
+            env[a.kwarg.arg] = kwargs
+        elif kwargs:
+            raise AnalysisError(f"npsym: unexpected keywords {sorted(kwargs)} for {fr.qual}")
         try:
             frame.block(node.body)
         except _Return as r:
@@ -457,6 +557,8 @@ class _Frame:
                 base[idx] = val
             elif isinstance(base, (list, dict)):
                 base[self.pyindex(t.slice)] = v
+            elif isinstance(base, Model):
+                base.np_setitem(self, self._model_key(t.slice), v)
             else:
                 raise AnalysisError(f"npsym: store into `{norm(t)[:50]}`")
         elif isinstance(t, ast.Attribute):
@@ -593,6 +695,15 @@ class _Frame:
                 out.append(self._int(v))
         return tuple(out) if len(out) != 1 or isinstance(sl, ast.Tuple) else out[0]
 
+    def _model_key(self, sl):
+        """subscript of a stand-in object: a string key, or an array index"""
+        if isinstance(sl, (ast.Tuple, ast.Slice)):
+            return self.index(sl)
+        v = self.ev(sl)
+        if isinstance(v, str) or v is Ellipsis:
+            return v
+        return self.index(sl)
+
     def _int(self, v):
         np = self.np
         if isinstance(v, (int, np.integer)) and not isinstance(v, bool):
@@ -639,6 +750,8 @@ class _Frame:
                 return base[k]
             if isinstance(base, range):
                 return base[self._int(self.pyindex(e.slice))]
+            if isinstance(base, Model):
+                return base.np_getitem(self, self._model_key(e.slice))
             raise AnalysisError(f"npsym: subscript of {type(base).__name__} in `{norm(e)[:60]}`")
         if isinstance(e, ast.UnaryOp):
             v = self.ev(e.operand)
@@ -691,7 +804,24 @@ class _Frame:
             self._comp(e.generators, 0, lambda: out.__setitem__(self.ev(e.key), self.ev(e.value)))
             return out
         if isinstance(e, ast.JoinedStr):
-            return "<f-string>"
+            parts = []
+            for v in e.values:
+                if isinstance(v, ast.Constant):
+                    parts.append(str(v.value))
+                    continue
+                try:
+                    x = self.ev(v.value)
+                except AnalysisError:
+                    return "<f-string>"
+                if isinstance(x, sp.Basic) and x.is_Integer:
+                    x = int(x)
+                if isinstance(x, np.ndarray) and x.size == 1 and x.dtype != object:
+                    x = x.reshape(-1)[0].item()
+                if isinstance(x, (int, str, bool)) and v.format_spec is None and v.conversion == -1:
+                    parts.append(str(x))
+                else:
+                    parts.append("<?>")
+            return "".join(parts)
         if isinstance(e, ast.Call):
             return self.call(e)
         if isinstance(e, ast.Slice):
@@ -800,7 +930,11 @@ class _Frame:
         if isinstance(base, ClassRef):
             q_ = f"{base.node.name}.{a}"
             if q_ in base.mod.functions:
-                return FuncRef(base.mod, base.mod.functions[q_], q_)
+                fn_ = base.mod.functions[q_]
+                if any(isinstance(d, ast.Name) and d.id == "classmethod" for d in fn_.decorator_list):
+                    fr_ = FuncRef(base.mod, fn_, q_)
+                    return lambda frame, *a_, **k_: self.I._invoke(fr_, [base] + list(a_), dict(k_))
+                return FuncRef(base.mod, fn_, q_)
             for st_ in base.node.body:
                 if isinstance(st_, ast.Assign) and len(st_.targets) == 1 and isinstance(st_.targets[0], ast.Name) and st_.targets[0].id == a:
                     return _Frame(self.I, base.mod, {}).ev(st_.value)
@@ -823,6 +957,16 @@ class _Frame:
             if a == "grad":
                 return None
             return _BoundMethod(base, a)
+        if isinstance(base, Instance):
+            if a in vars(base):
+                return getattr(base, a)
+            if a == "__class__":
+                return types.SimpleNamespace(__name__=base._npsym_class[1])
+            return self.I.class_attribute(base._npsym_class[0], base._npsym_class[1], a, base)
+        if isinstance(base, Model):
+            if hasattr(base, a):
+                return getattr(base, a)
+            raise AnalysisError(f"npsym: the stand-in {type(base).__name__} has no attribute `{a}` (in `{norm(e)[:50]}`)")
         if isinstance(base, types.SimpleNamespace):
             if hasattr(base, a):
                 return getattr(base, a)
@@ -855,6 +999,8 @@ class _Frame:
             return I.class_hook(f, args, kwargs)
         if isinstance(f, ClassRef):
             if args or kwargs or any(isinstance(st, ast.FunctionDef) and st.name == "__init__" for st in f.node.body):
+                if getattr(I, "construct_instances", False):
+                    return I.construct(f, args, kwargs)
                 raise AnalysisError(f"npsym: construction of `{f.node.name}` with arguments / an __init__")
             ns = types.SimpleNamespace()
             fr2 = _Frame(I, f.mod, {})
@@ -1109,6 +1255,9 @@ class _Frame:
                 return obj.setdefault(*args)
             if name == "copy":
                 return dict(obj)
+            if name == "clear":
+                obj.clear()
+                return None
         if isinstance(obj, list):
             if name == "append":
                 obj.append(args[0])
@@ -1372,7 +1521,17 @@ def _b_float(fr, x=0):
 
 
 def _b_isinstance(fr, x, t):
-    names = [getattr(tt, "name", str(tt)) for tt in (t if isinstance(t, tuple) else (t,))]
+    for tt in (t if isinstance(t, tuple) else (t,)):
+        if isinstance(tt, ClassRef) and isinstance(x, Instance):
+            if _b_issubclass(fr, ClassRef(x._npsym_class[0], x._npsym_class[0].classes[x._npsym_class[1]]), tt):
+                return True
+    names = [getattr(tt, "name", str(tt)) for tt in (t if isinstance(t, tuple) else (t,)) if not isinstance(tt, ClassRef)]
+    for tt in (t if isinstance(t, tuple) else (t,)):
+        for bn in ("int", "float", "bool", "str", "list", "tuple", "dict"):
+            if tt is BUILTINS.get(bn):
+                names.append(f"<builtin {bn}>")
+    if isinstance(x, fr.sp.Basic) and x.is_Integer and "<builtin int>" in names:
+        return True
     for nm in names:
         if nm in ("torch.Tensor",) and isinstance(x, fr.np.ndarray):
             return True
@@ -1408,16 +1567,32 @@ def _b_issubclass(fr, c, bases):
     return any(b.node.name in seen for b in bases)
 
 
+_MISSING = object()
+
+
+def _b_getattr(fr, o, n, *d):
+    if isinstance(o, Instance):
+        if n in vars(o):
+            return getattr(o, n)
+        v = fr.I.class_attribute(o._npsym_class[0], o._npsym_class[1], n, o, default=_MISSING)
+        if v is not _MISSING:
+            return v
+        if d:
+            return d[0]
+        raise AnalysisError(f"npsym: getattr of missing attribute `{n}`")
+    return getattr(o, n, *d)
+
+
 BUILTINS: Dict[str, Any] = {
     "issubclass": _b_issubclass,
     "range": _b_range, "len": _b_len, "enumerate": _b_enumerate, "zip": _b_zip, "int": _b_int, "float": _b_float,
     "bool": lambda fr, x=False: fr.truth(x), "tuple": lambda fr, x=(): tuple(fr.iterate(x, None)), "list": lambda fr, x=(): list(fr.iterate(x, None)),
     "dict": lambda fr, *a, **k: dict(*a, **k), "isinstance": _b_isinstance, "print": lambda fr, *a, **k: None,
-    "max": lambda fr, *a: max(*a) if len(a) > 1 else max(a[0]), "min": lambda fr, *a: min(*a) if len(a) > 1 else min(a[0]),
+    "max": lambda fr, *a, **k: max(*a, **k) if len(a) > 1 else max(a[0], **k), "min": lambda fr, *a, **k: min(*a, **k) if len(a) > 1 else min(a[0], **k),
     "abs": lambda fr, x: abs(x), "sorted": lambda fr, x: sorted(x), "sum": lambda fr, x, s=0: sum(x, s), "set": lambda fr, x=(): set(x),
     "str": lambda fr, x="": str(x), "reversed": lambda fr, x: list(reversed(list(x))), "any": lambda fr, x: any(fr.truth(t) for t in x),
-    "all": lambda fr, x: all(fr.truth(t) for t in x), "getattr": lambda fr, o, n, *d: getattr(o, n, *d), "hasattr": lambda fr, o, n: hasattr(o, n),
-    "slice": lambda fr, *a: slice(*a), "id": lambda fr, x: id(x),
+    "all": lambda fr, x: all(fr.truth(t) for t in x), "getattr": lambda fr, o, n, *d: _b_getattr(fr, o, n, *d), "hasattr": lambda fr, o, n: _b_getattr(fr, o, n, _MISSING) is not _MISSING,
+    "slice": lambda fr, *a: slice(*a), "id": lambda fr, x: id(x), "callable": lambda fr, x: callable(x) or isinstance(x, FuncRef),
     "map": lambda fr, f, *xs: [fr.apply(f, list(t)) for t in zip(*[fr.iterate(x, None) for x in xs])], "repr": lambda fr, x: repr(x), "round": lambda fr, x, n=0: round(x, n),
     "ValueError": TorchMarker("ValueError"), "RuntimeError": TorchMarker("RuntimeError"), "NotImplementedError": TorchMarker("NotImplementedError"), "TypeError": TorchMarker("TypeError"),
 }
